@@ -49,7 +49,7 @@ impl Probe<'_> {
     ) -> Option<String>
     where
         T: Plain + FromPlain,
-        T::Err: std::fmt::Display,
+        T::Err: std::fmt::Display + Into<Box<dyn std::error::Error + Sync + Send>>,
     {
         self.rep.evaluations += 1;
         self.rep.cell(&format!("type/{}", ty));
@@ -75,7 +75,48 @@ impl Probe<'_> {
                 }
             }
         }
+        self.decoders(ty, v, shown, &text, &eq);
         Some(text)
+    }
+
+    /// The same text through the server's parameter decoders (the parse path of path, query and
+    /// header parameters): required, optional (present / absent) and repeated.
+    fn decoders<T>(&mut self, ty: &str, v: &T, shown: &str, text: &str, eq: &impl Fn(&T, &T) -> bool)
+    where
+        T: Plain + FromPlain,
+        T::Err: std::fmt::Display + Into<Box<dyn std::error::Error + Sync + Send>>,
+    {
+        use conjure_http::server::conjure::{FromPlainDecoder, FromPlainOptionDecoder, FromPlainSeqDecoder};
+        use conjure_http::server::{ConjureRuntime, DecodeHeader, DecodeParam};
+        let rt = ConjureRuntime::new();
+        let mut outcomes: Vec<(&'static str, Result<Result<bool, String>, String>)> = vec![];
+        outcomes.push(("param/required", guarded(|| <FromPlainDecoder as DecodeParam<T>>::decode(&rt, [text]).map(|b| eq(v, &b)).map_err(|e| e.cause().to_string()))));
+        outcomes.push(("param/optional-present", guarded(|| {
+            <FromPlainOptionDecoder as DecodeParam<Option<T>>>::decode(&rt, [text]).map(|b| b.as_ref().map(|b| eq(v, b)).unwrap_or(false)).map_err(|e| e.cause().to_string())
+        })));
+        outcomes.push(("param/optional-absent", guarded(|| {
+            <FromPlainOptionDecoder as DecodeParam<Option<T>>>::decode(&rt, Vec::<String>::new()).map(|b| b.is_none()).map_err(|e| e.cause().to_string())
+        })));
+        outcomes.push(("param/repeated", guarded(|| {
+            <FromPlainSeqDecoder<T> as DecodeParam<Vec<T>>>::decode(&rt, [text, text]).map(|b| b.len() == 2 && b.iter().all(|b| eq(v, b))).map_err(|e| e.cause().to_string())
+        })));
+        // HTTP carries only visible ASCII as header text (C04); other texts never reach a header decoder
+        if let Some(h) = http::HeaderValue::from_str(text).ok().filter(|_| text.bytes().all(|b| (0x20..0x7f).contains(&b))) {
+            outcomes.push(("header/required", guarded(|| <FromPlainDecoder as DecodeHeader<T>>::decode(&rt, [&h]).map(|b| eq(v, &b)).map_err(|e| e.cause().to_string()))));
+            outcomes.push(("header/optional-present", guarded(|| {
+                <FromPlainOptionDecoder as DecodeHeader<Option<T>>>::decode(&rt, [&h]).map(|b| b.as_ref().map(|b| eq(v, b)).unwrap_or(false)).map_err(|e| e.cause().to_string())
+            })));
+        }
+        for (which, out) in outcomes {
+            self.rep.evaluations += 1;
+            self.rep.cell(&format!("decoder/{}", which));
+            match out {
+                Err(p) => self.fail(ty, &format!("decoder:{}:panic", which), shown, Some(text), p),
+                Ok(Err(e)) => self.fail(ty, &format!("decoder:{}:rejects-own-text", which), shown, Some(text), e),
+                Ok(Ok(false)) => self.fail(ty, &format!("decoder:{}:value-changed", which), shown, Some(text), String::new()),
+                Ok(Ok(true)) => {}
+            }
+        }
     }
 }
 
